@@ -96,6 +96,12 @@ def batchEntry (e : Entry) : Bool × Bool :=
 /-- Batch check: one result per entry, in request order. -/
 def batch (es : List Entry) : List (Bool × Bool) := es.map batchEntry
 
+/-- `doBatchCheck` / gRPC `BatchCheck` as a whole: a batch with MORE entries than
+    `limit.max_batch_check_size` is rejected (400 / InvalidArgument, `none`); any other batch -
+    one of exactly the maximum size included - gets one result per entry. -/
+def batchLimited (max : Nat) (es : List Entry) : Option (List (Bool × Bool)) :=
+  if es.length > max then none else some (batch es)
+
 /-- The decision the engine stands for. -/
 def decision (e : Entry) : Bool :=
   e.tupleOk && e.nsKnown && e.eng.err.isNone && e.eng.memb == .isMember
